@@ -4,7 +4,7 @@ From H3V Require Import Base.Bytes Spec.RFC9000 Spec.QuinnApi Spec.AdapterSpec M
 Extraction Language OCaml.
 Extraction "C17_model.ml"
   N.add N.mul N.div_eucl N.ltb N.leb N.eqb N.min len vi_encode
-  qsend_new qrecv_new send_new send_data poll_ready poll_send poll_finish send_reset send_id
+  qsend_new qrecv_new send_new send_data poll_ready poll_send poll_finish send_reset send_drop send_id
   recv_new poll_data stop_sending recv_id underlying
   bidi_new open_bidi open_send accept_recv accept_bidi conn_close send_datagram poll_incoming_datagram spec_dgram_class
   spec_handed spec_stream_id spec_conn_class spec_read_class spec_write_class spec_refusal spec_reset_code
